@@ -199,6 +199,16 @@ func (ex *Exec) loopEnter(st *State, frID int, lp *Loop, from *ssa.BasicBlock, k
 	for g := range globals {
 		st.Globals[g] = ex.symbolic(st, "G."+g.Name(), deref(g.Type()))
 	}
+	// built-in invariant of range-over-slice loops: the hidden index starts at -1 and only grows
+	for _, in := range lp.Header.Instrs {
+		if u, ok := in.(*ssa.UnOp); ok {
+			if a, ok := u.X.(*ssa.Alloc); ok && a.Comment == "rangeindex" {
+				if cur, ok := st.Frames[frID].Cells[a].(Term); ok {
+					st.Assume(Ge(cur, IntT(-1)))
+				}
+			}
+		}
+	}
 	// 3. assume the invariants
 	if spec != nil {
 		for _, c := range spec.Invs {
